@@ -496,11 +496,132 @@ Proof.
   - destruct (- Z.of_nat n <=? z)%Z eqn:E2; [|discriminate]. intros [= <-]. lia.
 Qed.
 
+Lemma construct_ok axs v m a : construct axs v m = Ok a -> a = mkarr axs v m /\ map alen axs = sh v.
+Proof.
+  unfold construct. destruct (list_eqb Nat.eqb _ _) eqn:E; [|discriminate]. intros [= <-].
+  split; [reflexivity | apply list_eqb_nat_eq; exact E].
+Qed.
+
+(* ------------------------------------------------------------------ indexing, assignment, arithmetic with a scalar / ndarray *)
+From DA.Proofs Require Import C01_proofs C11_proofs.
+
+Lemma getaxes_names axs : forall ps, incl (map aname (getaxes axs ps)) (map aname axs) /\ (NoDup (map aname axs) -> NoDup (map aname (getaxes axs ps))).
+Proof.
+  induction axs as [|ax t IH]; intros ps; [destruct ps; simpl; split; auto using incl_refl|].
+  destruct ps as [|p ps']; [simpl; split; [intros x [] | intros _; constructor]|].
+  destruct (IH ps') as [Hi Hn].
+  destruct p as [i|l|]; cbn [getaxes map].
+  - split; [intros x Hx; right; apply Hi; exact Hx | intros H; apply Hn; inversion H; assumption].
+  - split; [intros x [Hx|Hx]; [left; exact Hx | right; apply Hi; exact Hx]|].
+    intros H. inversion H as [|? ? Hx Hd]; subst. constructor; [intros Hin; apply Hx; apply Hi; exact Hin | apply Hn; exact Hd].
+  - split; [intros x [Hx|Hx]; [left; exact Hx | right; apply Hi; exact Hx]|].
+    intros H. inversion H as [|? ? Hx Hd]; subst. constructor; [intros Hin; apply Hx; apply Hi; exact Hin | apply Hn; exact Hd].
+Qed.
+
+Theorem getitem_wf f tol kd a v : WF a -> getitem f tol kd a = Ok v -> WFv v.
+Proof.
+  intros [Hw [Hn He]] H. destruct v; try exact I.
+  destruct (getitem_spec f tol kd a a0 Hw H) as [ps [_ [Hw' [_ [Hax _]]]]].
+  split; [exact Hw'|]. unfold dims. rewrite Hax. destruct (getaxes_names (axes a) ps) as [Hi Hd].
+  split; [apply Hd; exact Hn | intros Hin; apply He; apply Hi; exact Hin].
+  (* lists of arrays are never returned by getitem *)
+  unfold getitem in H. destruct (get_indices a f tol kd); simpl in H; [|discriminate]. destruct (all_int _); discriminate.
+Qed.
+
+Theorem setitem_wf f tol r c a b : WF a -> setitem f tol r c a = Ok b -> WF b.
+Proof.
+  intros [[Hs Hd] Hn] H. unfold setitem in H. destruct (get_indices a f tol false) as [ps|]; simpl in H; [|discriminate].
+  match type of H with (let! v := ?X in _) = _ => destruct X as [v|] eqn:Ev end; simpl in H; [|discriminate]. injection H as <-.
+  unfold np_set_outer in Ev. destruct (match r with RScalar _ _ => true | RArr w => _ end); [|discriminate].
+  destruct (mapM _ (coords (sh (vals a)))) as [nd|] eqn:Em; simpl in Ev; [|discriminate]. injection Ev as <-.
+  split; [split; simpl; [exact Hs|] | exact Hn].
+  rewrite (mapM_length _ _ _ Em). apply coords_length.
+Qed.
+
+Lemma np_binop_wf o x y v : np_binop o x y = Ok v -> List.length (dat v) = prod (sh v).
+Proof. unfold np_binop. destruct (_ && _); [|discriminate]. intros [= <-]. simpl. apply tab_length. Qed.
+Theorem op_scalar_wf o c k refl a b : WF a -> op_scalar o c k refl a = Ok b -> WF b.
+Proof.
+  intros [[Hs Hd] Hn] H. unfold op_scalar in H.
+  match type of H with (let! v := ?X in _) = _ => destruct X as [v|] eqn:Ev end; simpl in H; [|discriminate].
+  destruct (construct_ok _ _ _ _ H) as [-> Hsh]. split; [split; simpl; [exact Hsh|] | exact Hn].
+  destruct refl; eapply np_binop_wf; exact Ev.
+Qed.
+Theorem op_ndarray_wf o w a b : WF a -> op_ndarray o w a = Ok b -> WF b.
+Proof.
+  intros [[Hs Hd] Hn] H. unfold op_ndarray in H. destruct (_ <? _); [discriminate|].
+  match type of H with (let! v := ?X in _) = _ => destruct X as [v|] eqn:Ev end; simpl in H; [|discriminate].
+  destruct (construct_ok _ _ _ _ H) as [-> Hsh]. split; [split; simpl; [exact Hsh|] | exact Hn].
+  eapply np_binop_wf; exact Ev.
+Qed.
+
+(* ------------------------------------------------------------------ reindexing *)
+Lemma fill_axis_wf i mask fill fk o o' : WF o -> fill_axis i mask fill fk o = Ok o' -> WF o' /\ axes o' = axes o.
+Proof.
+  intros [[Hs Hd] Hn] H. unfold fill_axis in H. destruct (mapM _ _) as [nd|] eqn:Em; simpl in H; [|discriminate]. injection H as <-.
+  split; [|reflexivity]. split; [split; simpl; [exact Hs|] | exact Hn].
+  rewrite (mapM_length _ _ _ Em). apply coords_length.
+Qed.
+
+Theorem reindex_main_wf newk news i fill fk re m a r : WF a -> reindex_main newk news i fill fk re m a = Ok r -> WF r.
+Proof.
+  intros Hw H. unfold reindex_main in H. cbv zeta in H.
+  destruct (locate_many_raw _ _ news) as [idxs|] eqn:El; simpl in H; [|discriminate].
+  pose proof (locate_many_raw_length _ _ _ _ El) as Hlen.
+  set (o := take_axis_pos idxs i a) in *.
+  assert (Ho : WF o) by (apply take_axis_pos_wf; exact Hw).
+  destruct (existsb _ _); [|injection H as <-; exact Ho].
+  destruct re; [discriminate|].
+  match type of H with (let! o := ?X in _) = _ => destruct X as [o2|] eqn:E2 end; simpl in H; [|discriminate]. injection H as <-.
+  assert (H2 : WF o2 /\ axes o2 = axes o).
+  { destruct m; [eapply fill_axis_wf; eassumption | injection E2 as <-; split; [exact Ho | reflexivity] | injection E2 as <-; split; [exact Ho | reflexivity]]. }
+  destruct H2 as [[[Hs2 Hd2] Hn2] Hax2].
+  split; [split; simpl; [|exact Hd2]|].
+  - rewrite <- Hs2. rewrite map_set_nth.
+    assert (Hal : alen (relabel (nth i (axes o2) dax0) newk (map (fun p : bool * label => if fst p then Some (snd p) else None)
+                   (combine (map (fun p => negb (label_eqb (nth_lab (alab (nth i (axes a) dax0)) (fst p)) (snd p))) (combine idxs news)) news)))
+                  = alen (nth i (axes o2) dax0)).
+    { unfold alen, relabel. cbn [alab]. rewrite map_length, combine_length, map_length, combine_length, map_length, combine_length.
+      destruct (Nat.lt_ge_cases i (List.length (axes a))) as [Hi|Hi].
+      - rewrite Hax2. unfold o, take_axis_pos. cbn [axes mkarr]. rewrite nth_set_nth_eq by exact Hi. unfold with_labels. cbn [alab]. rewrite map_length. lia.
+      - rewrite Hax2. unfold o, take_axis_pos. cbn [axes mkarr]. rewrite nth_overflow by (rewrite set_nth_length; exact Hi). simpl. lia. }
+    rewrite Hal. apply set_nth_alen_self.
+  - unfold dims in *. cbn [axes mkarr]. rewrite dims_set_same_name; [exact Hn2 | reflexivity].
+Qed.
+
+Theorem reindex_axis_wf newk news rf fill fk re m a r : WF a -> reindex_axis newk news rf fill fk re m a = Ok r -> WF r.
+Proof.
+  intros Hw H. unfold reindex_axis in H.
+  match type of H with (let! i := ?X in _) = _ => destruct X as [i|] eqn:Ei end; simpl in H; [|discriminate].
+  destruct (_ && _).
+  - unfold reindex_empty in H. cbv zeta in H. destruct re; [discriminate|].
+    destruct (cell_to_kind _ fill) as [c|]; simpl in H; [|discriminate]. injection H as <-.
+    apply wf_set_axis; [exact Hw | reflexivity | reflexivity].
+  - eapply reindex_main_wf; eassumption.
+Qed.
+Theorem reindex_to_axis_wf nx a r : WF a -> reindex_to_axis nx a = Ok r -> WF r.
+Proof. intros Hw H. unfold reindex_to_axis in H. eapply reindex_axis_wf; eassumption. Qed.
+Lemma reindex_like_go_wf tmpl own : forall a r, WF a -> reindex_like_go own tmpl a = Ok r -> WF r.
+Proof.
+  induction own as [|ax t IH]; intros a r Hw H; simpl in H; [injection H as <-; exact Hw|].
+  destruct (find _ tmpl) as [nx|]; [|eapply IH; eassumption].
+  destruct (reindex_axis _ _ _ _ _ _ _ a) as [a'|] eqn:E; simpl in H; [|discriminate].
+  eapply IH; [eapply reindex_axis_wf; eassumption | exact H].
+Qed.
+Theorem reindex_like_wf tmpl a r : WF a -> reindex_like tmpl a = Ok r -> WF r.
+Proof. intros Hw H. eapply reindex_like_go_wf; eassumption. Qed.
+Theorem unflatten_wf_plain a : WF a -> Forall (fun ax => amem ax = []) (axes a) -> WF (unflatten a).
+Proof.
+  intros [[Hs Hd] Hn] Hp. unfold unflatten. rewrite (C11_proofs.unflatten_axes_plain _ Hp).
+  split; [split; simpl; [reflexivity | rewrite Hs; exact Hd] | exact Hn].
+Qed.
+
 (* ------------------------------------------------------------------ one step and whole programs *)
 Definition covered (a : darr) (o : op) : bool :=
   match o with
   | OTranspose _ | OSwapaxes _ _ | ORollaxis _ _ | ORepeat _ _ _ | OSqueeze _
   | OReduce _ _ AxNone | OReduce _ _ (AxOne _) | OCum _ _ _ | ODiff _ _ _ _ | OArgExt _ _ | ODropna _ _
+  | OGet _ _ _ | OPut _ _ _ _ | OScalarOp _ _ _ _ | ONdarrayOp _ _ | OReindex _ _ _ _ _ _ _ | OReindexAxisObj _ | OReindexLike _
   | OFillna _ _ | OSetna _ | OSetnaMask _ | OPutMask _ _ _ | OTakeAxisLabel _ _ | OTakeAxisPos _ _ | OCompressAxis _ _
   | OSortAxis _ | OInterp _ _ _ _ _ | OInterpLike _ _ _ | OSetLabel _ _ _ _ | OSetDims _ | OIdentity => true
   | ONewaxis n _ _ => negb (String.eqb n "")
@@ -518,7 +639,14 @@ Proof.
   - destruct (newaxis name v0 pos a) eqn:E; simpl in H; [|discriminate]. injection H as <-.
     eapply newaxis_wf; [|exact Hw | exact E]. intros ->. discriminate.
   - destruct (squeeze r a) eqn:E; simpl in H; [|discriminate]. injection H as <-. eapply squeeze_wf; eassumption.
+  - eapply getitem_wf; eassumption.
+  - destruct (setitem f tol r cast a) eqn:E; simpl in H; [|discriminate]. injection H as <-. eapply setitem_wf; eassumption.
   - destruct (setmask m r cast a) eqn:E; simpl in H; [|discriminate]. injection H as <-. eapply setmask_wf; eassumption.
+  - destruct (reindex_axis k news r fill fk raise_error m a) eqn:E; simpl in H; [|discriminate]. injection H as <-. eapply reindex_axis_wf; eassumption.
+  - destruct (reindex_to_axis nx a) eqn:E; simpl in H; [|discriminate]. injection H as <-. eapply reindex_to_axis_wf; eassumption.
+  - destruct (reindex_like _ a) eqn:E; simpl in H; [|discriminate]. injection H as <-. eapply reindex_like_wf; eassumption.
+  - destruct (op_scalar o c k reflected a) eqn:E; simpl in H; [|discriminate]. injection H as <-. eapply op_scalar_wf; eassumption.
+  - destruct (op_ndarray o w a) eqn:E; simpl in H; [|discriminate]. injection H as <-. eapply op_ndarray_wf; eassumption.
   - destruct (sort_axis r a) eqn:E; simpl in H; [|discriminate]. injection H as <-. eapply sort_axis_wf; eassumption.
   - destruct ax; try discriminate; unfold reduce_any in H; eapply reduce_wf; eassumption.
   - destruct (cumulative prod skipna r a) eqn:E; simpl in H; [|discriminate]. injection H as <-. eapply cumulative_wf; eassumption.
@@ -682,12 +810,6 @@ Proof.
   - destruct (mapM _ _) as [m|] eqn:Em; simpl in H; [|discriminate].
     destruct (append_all_spec _ _ _ H (NoDup_nil _)) as [-> Hd]. simpl in *. split; [exact Hd|].
     apply (mapM_mk_nonempty (fun p : nat * nat => DStr (default_name (fst p))) (fun _ => KI) (fun p => arange_labels (snd p)) _ _ Em).
-Qed.
-
-Lemma construct_ok axs v m a : construct axs v m = Ok a -> a = mkarr axs v m /\ map alen axs = sh v.
-Proof.
-  unfold construct. destruct (list_eqb Nat.eqb _ _) eqn:E; [|discriminate]. intros [= <-].
-  split; [reflexivity | apply list_eqb_nat_eq; exact E].
 Qed.
 
 (* every array a constructor form returns is well-formed *)
